@@ -710,7 +710,11 @@ def main(ctx):
 
     # each length = a decimal or binary mark + more than one base period, so every base pair also sits beyond the mark
     from mc.longarr import marks as _marks
-    long_ns = tuple(m + 200 for m in _marks(ctx)) + ctx.pick((), (65736, 1000200))
+    from mc.longarr import harvest_lengths
+    # ... plus lengths derived from the integer constants of the code under test (a block size comes as a literal)
+    hl, hblocks = harvest_lengths([coords])
+    long_ns = tuple(m + 200 for m in _marks(ctx)) + ctx.pick((), (65736, 1000200)) + tuple(n for n in hl if n >= 1000)
+    ctx.notes.append("long-arrays: integer constants harvested from esutil.coords: %r" % (hblocks,))
     lunits = [(fn, un, n, form) for n in long_ns for fn, un in (("sphdist", None), ("sphdist", ("rad", "deg")), ("gcirc", None))
               for form in ("arrays", "centre")]
     ctx.lattice("long-arrays", lunits, one_long, bounds=dict(lengths=list(long_ns), base_period=199, forms=["arrays", "centre"]))
